@@ -390,14 +390,14 @@ class Scan(Generic[Carry, Y], GenerativeFunction[tuple[Carry, Y]]):
         scores = jax.vmap(lambda tr: tr.get_score())(new_inner_trace)
 
         # We don't actually know if the index which was updated was the last one.
-        # Therefore, we need to provide a where selection
-        # between the carry from index, and the next slice --
+        # If it was, the final carry is the carry out of the edited slice. Otherwise the
+        # next slice's carry out is unchanged (asserted above), so nothing downstream
+        # changed and the final carry is the old one.
         carry_out = Diff.tree_primal(carry_retdiff)
-        carry_out_ = Diff.tree_primal(retdiff[0])
         carried_out = jtu.tree_map(
-            lambda v, v_: jnp.where(idx < max_length, v_, v),
+            lambda v, v_: jnp.where(idx + 1 < max_length, v_, v),
             carry_out,
-            carry_out_,
+            old_carried_out,
         )
 
         return (
@@ -411,7 +411,7 @@ class Scan(Generic[Carry, Y], GenerativeFunction[tuple[Carry, Y]]):
             ),
             w + (next_w * (idx + 1 < max_length)),
             # We always set the carried out value to be an unknown change, conservatively.
-            (Diff.unknown_change(old_carried_out), new_scanned_retdiff),
+            (Diff.unknown_change(carried_out), new_scanned_retdiff),
             IndexRequest(idx, bwd_request),
         )
 
